@@ -2,7 +2,7 @@
     heap [ow_heap] (TierBridgeOverwriteDefs.v), and what happens OUTSIDE their hypotheses, by concrete counterexample:
 
     * [overwrite_const_key_refuted]: a root whose key carries cJSON_StringIsConst (the caller's block, borrowed)
-      gets that block released — [ForeignFree] in the model (in C: free() of memory the library does not own,
+      gets that block released by overwrite_item (unchanged by the repair f953f57) — [ForeignFree] in the model (in C: free() of memory the library does not own,
       e.g. a string literal) — although cJSON_Delete of the same root is fine and leaves the block alone;
     * [overwrite_member_refuted]: a "root" that is in fact a member of a larger tree (it has siblings) loses them:
       the memcpy overwrites next/prev with the NULL links of the replacement, the parent's chain ends after the
@@ -71,8 +71,8 @@ Qed.
     [5, "x"] without key *)
 Lemma ow_result :
   patch_released ow_dr ow_csr 10 ow_dx = [102; 101; 103; 2; 104; 105; 3; 10; 110]%positive /\
-  overwrite_root 1 10 ow_dx ow_csx ow_F = [T 1 (rd_no_key ow_dx) ow_csx; ow_num 20 7 None] /\
-  PatchDefs.set_key (reify (h_str ow_heap) (T 10 ow_dx ow_csx)) None =
+  overwrite_root 1 10 ow_dx ow_csx ow_F = [T 1 (rd_unnamed ow_dx) ow_csx; ow_num 20 7 None] /\
+  PatchDefs.unnamed (reify (h_str ow_heap) (T 10 ow_dx ow_csx)) =
     Tree.Node c_cJSON_Array None 0 dzero None
       [Tree.Node c_cJSON_Number None 5 (dbl_of_int 5) None []; Tree.Node c_cJSON_String (Some [120]) 0 dzero None []] /\
   ov_released ow_dr ow_csr = [102; 101; 103; 2; 104; 105; 3]%positive /\
@@ -83,20 +83,20 @@ Proof. split_and!; vm_compute; reflexivity. Qed.
 Lemma ow_instance :
   exists h',
     patch_root_overwrite (Some 1%positive) (Some 10%positive) ow_heap = Ret (tt, h') /\
-    WF h' [T 1 (rd_no_key ow_dx) ow_csx; ow_num 20 7 None] /\
-    NoLeak h' [T 1 (rd_no_key ow_dx) ow_csx; ow_num 20 7 None] /\
+    WF h' [T 1 (rd_unnamed ow_dx) ow_csx; ow_num 20 7 None] /\
+    NoLeak h' [T 1 (rd_unnamed ow_dx) ow_csx; ow_num 20 7 None] /\
     lib_live h' = lib_live ow_heap ∖ list_to_set [102; 101; 103; 2; 104; 105; 3; 10; 110]%positive /\
-    reify (h_str h') (T 1 (rd_no_key ow_dx) ow_csx) =
+    reify (h_str h') (T 1 (rd_unnamed ow_dx) ow_csx) =
       Tree.Node c_cJSON_Array None 0 dzero None
         [Tree.Node c_cJSON_Number None 5 (dbl_of_int 5) None []; Tree.Node c_cJSON_String (Some [120]) 0 dzero None []].
 Proof.
   destruct ow_hypotheses as (W & NL & Hr & Hx & Hrx & Hnr & Hko & Hkx & _ & _ & _ & Hrx' & Hoc).
-  destruct (patch_root_overwrite_sim ow_heap ow_F 1 10 ow_dr ow_dx ow_csr ow_csx W Hr Hx Hrx Hnr Hko Hkx)
+  destruct (patch_root_overwrite_sim ow_heap ow_F 1 10 ow_dr ow_dx ow_csr ow_csx W Hr Hx Hrx Hnr Hko)
     as (S1 & S2 & _ & S4 & S5 & _ & S7).
   destruct ow_result as (R1 & R2 & R3 & _). rewrite R1, R2 in *.
   eexists. split; [exact S1|]. split; [exact S2|]. split; [exact (S5 NL)|]. split; [exact S4|].
   rewrite <- R3. apply S7. rewrite <- R1.
-  exact (patch_no_aliasing_of_owned ow_heap ow_F 1 10 ow_dr ow_dx ow_csr ow_csx W Hr Hx Hrx Hnr Hko Hkx Hrx' Hoc).
+  exact (patch_no_aliasing_of_owned ow_heap ow_F 1 10 ow_dr ow_dx ow_csr ow_csx W Hr Hx Hrx Hnr Hko Hrx' Hoc).
 Qed.
 
 Lemma ow_instance_remove :
@@ -123,6 +123,7 @@ Theorem overwrite_const_key_refuted :
   is_const owc_dr = true /\ rd_key owc_dr = Some 102%positive /\ ~ key_owned owc_dr /\
   h_own owc_heap !! 102%positive = Some Foreign /\ 102%positive ∈ h_live owc_heap /\
   patch_root_overwrite (Some 1%positive) (Some 10%positive) owc_heap = Err ForeignFree /\
+  patch_root_overwrite_pinned (Some 1%positive) (Some 10%positive) owc_heap = Err ForeignFree /\
   patch_root_remove (Some 1%positive) owc_heap = Err ForeignFree /\
   (exists h', cJSON_Delete (Some 1%positive) owc_heap = Ret (tt, h') /\ 102%positive ∈ h_live h').
 Proof.
@@ -132,18 +133,43 @@ Proof.
   - eexists. split; [vm_compute; reflexivity|]. ow_dec.
 Qed.
 
-(** a REPLACEMENT with a constant key (every hypothesis but [key_owned dx] holds): overwrite_item itself is fine,
-    but the final [cJSON_free(object->string)] of apply_patch releases the caller's block *)
-Theorem overwrite_const_replacement_refuted :
+(** a REPLACEMENT with a constant key (what cJSON_Duplicate returns for a member added with
+    cJSON_AddItemToObjectCS).  With the PINNED code (before the repair f953f57) the final
+    [cJSON_free(object->string)] releases the caller's block … *)
+Theorem overwrite_const_replacement_refuted_pinned :
   WF owk_heap owk_F /\ find_root 1%positive owk_F = Some (ow_num 1 1 None) /\
   find_root 10%positive owk_F = Some (T 10 owk_dx []) /\ key_owned (tdata (ow_num 1 1 None)) /\
   is_const owk_dx = true /\ rd_key owk_dx = Some 110%positive /\ ~ key_owned owk_dx /\
   h_own owk_heap !! 110%positive = Some Foreign /\ 110%positive ∈ h_live owk_heap /\
-  patch_root_overwrite (Some 1%positive) (Some 10%positive) owk_heap = Err ForeignFree.
+  patch_root_overwrite_pinned (Some 1%positive) (Some 10%positive) owk_heap = Err ForeignFree.
 Proof.
   split_and!; try (vm_compute; reflexivity).
   - apply heap_of_WF; [ow_dec|ow_dec|ow_dec|ow_dec|unfold ref_ok; ow_dec].
   - intros H. specialize (H eq_refl). discriminate H.
+Qed.
+
+(** … with the REPAIRED code the same call succeeds: only the old root 1 and the shell 10 are released, the
+    caller's block 110 stays live, borrowed and unchanged, and the new root is the number 5 without key and
+    without the cJSON_StringIsConst flag *)
+Theorem overwrite_const_replacement_ok :
+  110%positive ∉ owned owk_F /\
+  exists h',
+    patch_root_overwrite (Some 1%positive) (Some 10%positive) owk_heap = Ret (tt, h') /\
+    WF h' [T 1 (rd_unnamed owk_dx) []] /\
+    patch_released (tdata (ow_num 1 1 None)) [] 10 owk_dx = [10%positive] /\
+    110%positive ∈ h_live h' /\ h_own h' !! 110%positive = Some Foreign /\
+    h_str h' !! 110%positive = Some [118; 97; 108; 117; 101; 0] /\
+    rd_key (rd_unnamed owk_dx) = None /\ is_const (rd_unnamed owk_dx) = false /\
+    reify (h_str h') (T 1 (rd_unnamed owk_dx) []) = Tree.Node c_cJSON_Number None 5 (dbl_of_int 5) None [].
+Proof.
+  destruct overwrite_const_replacement_refuted_pinned as (W & Hr & Hx & Hko & Hc & Hk & _ & Hown & Hlive & _).
+  assert (Hnot : 110%positive ∉ owned owk_F) by ow_dec.
+  split; [exact Hnot|].
+  destruct (patch_const_replacement_ok owk_heap owk_F 1 10 _ owk_dx [] [] 110 W Hr Hx ltac:(done) eq_refl Hko Hc Hk Hnot)
+    as (S1 & S2 & S3 & _ & S5 & S6 & S7 & S8 & S9).
+  eexists. split; [exact S1|]. split; [exact S2|]. split; [exact S3|].
+  split; [by apply S5|]. split; [etransitivity; [exact S7|exact Hown]|]. split; [etransitivity; [exact S6|vm_compute; reflexivity]|].
+  split; [exact S8|]. split; [exact S9|]. vm_compute. reflexivity.
 Qed.
 
 (** a "root" with siblings: member 2 ("a") of the object 1 of [ex_heap] (TierBridge.v; members 2 3 4), replacement
